@@ -204,6 +204,7 @@ func R20(p *core.Prog) *core.Result {
 	// ---- (c) ----
 	nameAgree(p, r, "buildFieldFold")
 	nameAgree(p, r, "fieldUnfolders")
+	dupCheck(p, r)
 
 	// ---- (d) ----
 	fiv := p.LookupFunc("gotype", "foldInterfaceValue")
@@ -577,4 +578,75 @@ func init() {
 		Technique:   "typed-AST rule coverage of the omitempty kind switch, dead-result query on SSA for folder-producing calls, SSA shape check of the member-name derivation on both sides, dominance order of dispatch anchors; omit-before-everything path rule on fold and unfold side; re-arm reset rule for ExpectObjVisitor; registry-key typing of inline folders via the grammar getter table",
 		DesignRef:   "DESIGN.md section 2 R20; section 3 C12",
 	})
+}
+
+
+// dupCheck (FIELD-TABLE-UNIQUE): every insertion into a struct's member table
+// (map[string]fieldUnfolder) is behind a lookup of the same key in the same
+// table that found nothing. Two members answering to one name (an inlined
+// struct repeating a name of its parent) are refused when the unfolder is
+// built; without the test the later one silently replaces the earlier one and
+// the shadowed field is never filled.
+func dupCheck(p *core.Prog, r *core.Result) {
+	n := 0
+	for _, f := range p.ModFuncs() {
+		pk := core.FuncPkg(f)
+		if pk == nil || pk.Name() != "gotype" || f.Blocks == nil {
+			continue
+		}
+		for _, b := range f.Blocks {
+			for _, in := range b.Instrs {
+				mu, ok := in.(*ssa.MapUpdate)
+				if !ok {
+					continue
+				}
+				mt, ok := mu.Map.Type().Underlying().(*types.Map)
+				if !ok {
+					continue
+				}
+				if nt := namedOf(mt.Elem()); nt == nil || core.TypeName(nt) != "fieldUnfolder" {
+					continue
+				}
+				n++
+				guarded := false
+				for d := b; d != nil && d.Idom() != nil && !guarded; d = d.Idom() {
+					id := d.Idom()
+					iff, ok := id.Instrs[len(id.Instrs)-1].(*ssa.If)
+					if !ok || len(d.Preds) != 1 {
+						continue
+					}
+					ex, ok := iff.Cond.(*ssa.Extract)
+					if !ok || ex.Index != 1 {
+						continue
+					}
+					lk, ok := ex.Tuple.(*ssa.Lookup)
+					if !ok || !lk.CommaOk {
+						continue
+					}
+					sameMap := lk.X == mu.Map
+					if !sameMap {
+						for _, oa := range origins(lk.X) {
+							for _, ob := range origins(mu.Map) {
+								if oa == ob {
+									sameMap = true
+								}
+							}
+						}
+					}
+					// the insertion lies on the "not found" edge
+					if sameMap && lk.Index == mu.Key && id.Succs[1] == d {
+						guarded = true
+					}
+				}
+				pos := p.Pos(mu.Pos())
+				fkey := core.FuncKey(f)
+				if guarded {
+					r.Ok(".FIELD-TABLE-UNIQUE", pos, fkey+": the member is inserted only after a lookup of the same name found nothing")
+				} else {
+					r.Fail(".FIELD-TABLE-UNIQUE", fkey+"|insert", pos, fkey+" inserts a member into the struct's field table at "+pos+" without first testing that the name is free: a second member with the same name (an inlined struct repeating a name) silently replaces the first, whose field is then never filled", "")
+				}
+			}
+		}
+	}
+	r.Floor("field_table_insertions", n, 2)
 }
